@@ -902,7 +902,7 @@ fn main() {
     // instances of each type. One more work item per type for the foreign texts. A text is
     // evaluated once per type (global set of 128-bit text hashes).
     let t1 = Instant::now();
-    let n_double = if thorough { 30usize } else { 0usize };
+    let n_double = if thorough { 60usize } else { 0usize };
     let n_subst = if thorough { usize::MAX } else { 30usize };
     let n_single = if thorough { usize::MAX } else { 60usize };
     let n_foreign = 40usize;
